@@ -32,6 +32,10 @@ TEXT.update({
  "C08": ("No spec action can produce a panic result, so an observed panic can never be matched. The union of all extractions (every input in every reachable state of frame, both scancode decoders, event decoder, Keyboard; all 65 536 words; all 3.8M layout cells on 30 objects) runs in an overflow-checked, debug-assertion build under catch_unwind; TLC reports each panic observation.", "G+T: all extractions, panic observations judged by TLC"),
 })
 
+TEXT.update({
+ "C18": ("Keyboard.tla is the WIRING of three stage automata given as parameters. Spec side: instantiated with the stage specifications, TLC checks the isolation action properties over the full frame (2047) x scancode (6/3) product. Code side: instantiated with the automata extracted from the real, separately used Ps2Decoder / ScancodeSet / EventDecoder, TLC explores the synchronous product with the reachable graph of the real composite Keyboard over an alphabet mixing all entry points (49 128 composite states quick, 196 512 thorough) and validates recorded random interleavings with line noise (40k calls per set quick, 1.5M thorough), including opaque per-stage ids that must not change for stages a call does not feed.", "G+V: composite reachable-graph product + trace validation in TLC"),
+})
+
 def main():
     checks = []
     for pid in sorted(pkverif.PROPS):
